@@ -481,6 +481,8 @@ def fault_schedule(rng, nops):
             toks.append(['replay', rng.randrange(1000)])
         if rng.random() < 0.1:
             toks.insert(0, ['replay', rng.randrange(1000)])
+        if rng.random() < 0.25:
+            toks.append('last')          # a duplicate of the newest report the consumer has seen (same MdibVersion)
         sched.append(toks)
     return sched
 
@@ -536,6 +538,21 @@ def oracle_faults(case, result):
         ct.apply(c)
         if st.get('cmode') == 'invalid':
             frozen = True
+        # per delivery (the executor fingerprints the consumer MDIB around every delivery): a report from another
+        # sequence / instance and a notification that was delivered before must not change anything
+        PART = ['MdibVersion', 'SequenceId', 'InstanceId', 'descriptor versions', 'state versions', 'context state versions',
+                'waveform samples']
+        for r in st.get('delivered', []):
+            if 'changed' not in r:
+                continue
+            if r.get('seq') is not None and r.get('seq') != cur_seq and r['changed']:
+                yield 'C06', n, ('a report with a different SequenceId was applied: it changed ' +
+                                 ', '.join(PART[k] for k in r['changed']))
+            elif r.get('again') and r['changed']:
+                yield 'C06', n, ('a notification that had been delivered before changed the consumer again: ' +
+                                 ', '.join(PART[k] for k in r['changed']) + f' ({r.get("kind")})')
+        if c.get('seqinst') and not reloaded:
+            yield 'C06', n, f'the consumer adopted SequenceId/InstanceId {c["seqinst"]} without a reload'
         # a delivered report with a foreign sequence / instance id must invalidate an initialised consumer
         for r in st.get('delivered', []):
             if r.get('seq') is not None and r.get('seq') != cur_seq and st.get('cmode') == 'initialized':
